@@ -2,5 +2,15 @@
 from mc import master, ops, oracles
 from mc.props import _std
 
-_std.install(globals(), 'C03', 'model_checking', [oracles.oracle_ecma119], _std.default_bounds(big=True),
+# configurations with non-default volume descriptor parameters (volume set size / sequence number, identifiers, dates):
+# fields that are recorded in both byte orders or as fixed-width strings but never vary in the other configurations
+VDP = [dict(ops.mk(3, joliet=3), vdp={'set_size': 2, 'seqnum': 1, 'sys_ident': 'SYS', 'vol_ident': 'VOL', 'vol_set_ident': 'SET', 'pub_ident_str': 'pub',
+                                      'preparer_ident_str': 'prep', 'app_ident_str': 'app', 'copyright_file': 'COPY', 'abstract_file': 'ABS', 'bibli_file': 'BIB',
+                                      'vol_expire_date': 86400.0 * 400, 'app_use': 'use'}),
+       dict(ops.mk(4, rr='1.09'), vdp={'set_size': 513, 'seqnum': 258})]
+B = _std.default_bounds(big=True)
+B['quick'].append(('dfs', 'quick', VDP, 1, 1))
+B['thorough'].append(('dfs', 'quick', VDP, 2, 1))
+
+_std.install(globals(), 'C03', 'model_checking', [oracles.oracle_ecma119], B,
              ['independent decoder mc/readers/r119.py is trusted base'] + ['alphabet sigma1 of mc/ops.py and the depth bounds listed in the evidence'])
